@@ -38,7 +38,11 @@ RENDERER_OPS = [
     ('Html', {}), ('Html', {'process_html_tokens': False}), ('Html', {'html_escape_double_quotes': True}),
     ('Markdown', {}), ('Markdown', {'max_line_length': 20}), ('Markdown', {'normalize_whitespace': True}),
     ('LaTeX', {}), ('Ast', {}), ('Toc', {}), ('GithubWiki', {}), ('MathJax', {}), ('Pygments', {}), ('Jira', {}), ('XWiki20', {}),
+    ('Pygments', {'fail_on_unsupported_language': True}),
 ]
+# documents on which an open renderer raises one of the documented refusals in the middle of rendering
+REFUSED = {'Pygments': ['- a\n  ```nosuchlang\n  x\n  ```\n', '> 1. b\n>    ~~~ nosuchlang\n>    y\n>    ~~~\n'],
+           'LaTeX': ['- a `` ' + ''.join(chr(c) for c in range(33, 127)) + ' `` b\n']}
 SCHEME_PROGRAM = '(define x (* 2 21))\nx'
 
 FAULT_KINDS = ['span-find', 'span-init', 'block-start', 'block-read', 'block-init']
@@ -108,13 +112,28 @@ def use_key(name, opts, d):
     return json.dumps([name, opts, d], sort_keys=True)
 
 
+def render_or_refusal(name, opts, text, renderer=None):
+    """Output, or a marker naming the documented refusal the renderer raised."""
+    from mistletoe import Document
+    try:
+        if renderer is not None:
+            return renderer.render(Document(text))
+        return renderers.render(name, opts, text)[0]
+    except Exception as exc:
+        if type(exc).__name__ == 'ClassNotFound' and name == 'Pygments' and opts.get('fail_on_unsupported_language'):
+            return '!!refused: ClassNotFound'
+        if isinstance(exc, RuntimeError) and name == 'LaTeX' and 'Unable to find delimiter' in str(exc):
+            return '!!refused: no verb delimiter'
+        raise
+
+
 def compute_value(key):
     """One reference value, computed in an interpreter that has done nothing else (see __main__)."""
     from mistletoe import Document
     kind = key[0]
     if kind == 'use':
         _, name, opts, d = key
-        return renderers.render(name, opts, PROBES[d])[0]
+        return render_or_refusal(name, opts, PROBES[d])
     if kind == 'bare':
         return astdump.dump(Document(PROBES[key[1]]))
     if kind == 'scheme':
@@ -246,7 +265,7 @@ def run_history(ops):
             try:
                 if kind == 'use':
                     name, opts, d = op['r'], op.get('opts') or {}, op['d']
-                    got, _ = renderers.render(name, opts, PROBES[d])
+                    got = render_or_refusal(name, opts, PROBES[d])
                     want = base['uses'][use_key(name, opts, d)]
                     if got != want:
                         own_err = '%s%r on probe %d gives %r, fresh interpreter %r' % (name, opts, d, got[:200], want[:200])
@@ -258,10 +277,23 @@ def run_history(ops):
                     if open_r is None:
                         continue
                     name, opts, r = open_r
-                    got = r.render(Document(PROBES[op['d']]))
+                    got = render_or_refusal(name, opts, PROBES[op['d']], renderer=r)
                     want = base['uses'][use_key(name, opts, op['d'])]
                     if got != want:
                         own_err = '%s%r (open context) on probe %d gives %r, fresh %r' % (name, opts, op['d'], got[:200], want[:200])
+                elif kind == 'refused':
+                    # the open renderer refuses a document half-way through rendering (documented refusals only)
+                    if open_r is None or open_r[0] not in REFUSED:
+                        continue
+                    if open_r[0] == 'Pygments' and not open_r[1].get('fail_on_unsupported_language'):
+                        continue
+                    docs = REFUSED[open_r[0]]
+                    try:
+                        open_r[2].render(Document(docs[op['d'] % len(docs)]))
+                        own_err = 'the refusal document was rendered without a refusal'
+                    except Exception as exc:
+                        if type(exc).__name__ not in ('ClassNotFound', 'RuntimeError'):
+                            own_err = 'unexpected %s' % exc_sig(exc)
                 elif kind == 'exit':
                     if open_r is None:
                         continue
@@ -331,6 +363,8 @@ def _valid_op(o):
             return ok and (k == 'enter' or 0 <= o['d'] < len(PROBES))
         if k in ('render', 'bare'):
             return isinstance(o['d'], int) and 0 <= o['d'] < len(PROBES)
+        if k == 'refused':
+            return isinstance(o['d'], int) and o['d'] >= 0
         if k == 'fault':
             return o['kind'] in FAULT_KINDS and isinstance(o['pos'], int) and 0 <= o['pos'] <= 12 and isinstance(o['d'], int) and o['d'] >= 0
         return k in ('exit', 'scheme')
@@ -394,6 +428,14 @@ class Bounded(EnumPart):
                 idx += 1
                 if idx % n == k:
                     yield {'ops': [a, b]}
+        for name, opts in RENDERER_OPS:
+            if name in REFUSED:
+                for d in range(2):
+                    for d2 in (0, 1, 5, 10, 13):
+                        idx += 1
+                        if idx % n == k:
+                            yield {'ops': [{'op': 'enter', 'r': name, 'opts': opts}, {'op': 'render', 'd': d2}, {'op': 'refused', 'd': d},
+                                           {'op': 'render', 'd': d2}, {'op': 'exit'}, {'op': 'use', 'r': name, 'opts': opts, 'd': d2}]}
         red = reduced_alphabet()
         L = 4 if tier == 'quick' else 5
         for tup in itertools.product(range(len(red)), repeat=L):
@@ -407,7 +449,9 @@ class Bounded(EnumPart):
 
 def draw_op(t, in_context):
     if in_context:
-        k = t.weighted([(3, 'render'), (2, 'exit')])
+        k = t.weighted([(3, 'render'), (2, 'exit'), (1, 'refused')])
+        if k == 'refused':
+            return {'op': 'refused', 'd': t.below(4)}
         if k == 'render':
             return {'op': 'render', 'd': t.below(len(PROBES))}
         return {'op': 'exit'}
@@ -505,6 +549,11 @@ class StatefulMachine(core.Part):
             @rule(d=st.integers(0, len(PROBES) - 1))
             def render(self, d):
                 self._do({'op': 'render', 'd': d})
+
+            @precondition(lambda self: self.open_r is not None and self.open_r[0] in REFUSED and not self.dead)
+            @rule(d=st.integers(0, 3))
+            def refused(self, d):
+                self._do({'op': 'refused', 'd': d})
 
             @precondition(lambda self: self.open_r is not None and not self.dead)
             @rule()
